@@ -66,7 +66,19 @@ def certificate(e: Poly) -> str | None:
 
 @dataclass
 class Arr:
-    n: Poly  # length
+    n: Poly  # length of the last axis
+    lead: tuple = ()  # lengths of the leading (batch) axes, outermost first
+
+    @property
+    def dims(self) -> tuple:
+        return tuple(self.lead) + (self.n,)
+
+    @property
+    def total(self) -> Poly:
+        out = Poly.const(1)
+        for d in self.dims:
+            out = out * d
+        return out
 
 
 @dataclass
@@ -206,7 +218,9 @@ class LenInterp:
             if isinstance(a, Arr) and isinstance(b, Arr) and isinstance(e.op, (ast.Mult, ast.Add, ast.Sub)):
                 if not (a.n - b.n).is_zero():
                     self.problems.append((e, f'element-wise {type(e.op).__name__} of arrays of lengths {a.n} and {b.n}'))
-                return type(a)(a.n)
+                if a.lead and b.lead and (len(a.lead) != len(b.lead) or any(not (x - y).is_zero() for x, y in zip(a.lead, b.lead))):
+                    self.problems.append((e, f'element-wise {type(e.op).__name__} of arrays of shapes {a.dims} and {b.dims}'))
+                return type(a)(a.n, a.lead or b.lead)
             if isinstance(a, Arr) and isinstance(b, Arr) and isinstance(e.op, ast.MatMult):
                 return Arr(a.n)
             raise Incomplete(site(e), f'arithmetic outside the length language: {ast.unparse(e)[:50]}')
@@ -234,11 +248,11 @@ class LenInterp:
                 return ('selfattr', e.attr)
             if isinstance(base, Arr):
                 if e.attr == 'size':
-                    return base.n
+                    return base.total
                 if e.attr == 'shape':
-                    return (base.n,)
+                    return base.dims
                 if e.attr == 'real':
-                    return Arr(base.n)
+                    return Arr(base.n, base.lead)
                 if e.attr == 'dtype':
                     return ('const', 'dtype')
             raise Incomplete(site(e), f'attribute outside the length language: {ast.unparse(e)[:50]}')
@@ -246,8 +260,17 @@ class LenInterp:
             base = self.ev(e.value, env)
             if isinstance(base, tuple) and isinstance(e.slice, ast.UnaryOp | ast.Constant):
                 return base[-1] if isinstance(e.slice, ast.UnaryOp) else base[e.slice.value]
-            if isinstance(base, Arr) and isinstance(e.slice, ast.Slice):
+            if isinstance(base, Arr) and isinstance(e.slice, ast.Slice) and not base.lead:
                 return self.slice(base, e.slice, env, e)
+            if isinstance(base, Arr) and (isinstance(e.slice, ast.Slice) or (isinstance(e.slice, ast.Tuple) and all(isinstance(x, ast.Slice) for x in e.slice.elts))):
+                # slices apply to the axes in order, outermost first; axes not mentioned are kept
+                sls = [e.slice] if isinstance(e.slice, ast.Slice) else list(e.slice.elts)
+                dims = list(base.dims)
+                if len(sls) > len(dims):
+                    raise Incomplete(site(e), 'more slices than axes')
+                for k, sl in enumerate(sls):
+                    dims[k] = self.slice(Arr(dims[k]), sl, env, e).n
+                return type(base)(dims[-1], tuple(dims[:-1]))
             raise Incomplete(site(e), f'subscript outside the length language: {ast.unparse(e)[:50]}')
         if isinstance(e, ast.Call):
             return self.callexpr(e, env)
@@ -296,6 +319,29 @@ class LenInterp:
             for p, a in zip(params[1:], e.args):
                 sub[p] = self.ev(a, env)
             return self.call(fn, sub)
+        if isinstance(f, ast.Attribute) and f.attr in ('reshape', 'ravel', 'flatten') and not (isinstance(f.value, ast.Name) and f.value.id in ('jnp', 'np')):
+            base = self.ev(f.value, env)
+            if isinstance(base, Arr):
+                if f.attr in ('ravel', 'flatten'):
+                    return type(base)(base.total)
+                shp = [self.ev(a, env) for a in e.args]
+                if len(shp) == 1 and isinstance(shp[0], tuple):
+                    shp = list(shp[0])
+                if not shp or not all(isinstance(d, Poly) for d in shp):
+                    raise Incomplete(site(e), 'reshape to a shape outside the length language')
+                free = [k for k, d in enumerate(shp) if (d + Poly.const(1)).is_zero()]
+                if len(free) > 1:
+                    raise Incomplete(site(e), 'reshape with several -1')
+                if free:
+                    if len(shp) != 1:
+                        raise Incomplete(site(e), 'reshape with -1 next to other axes (needs exact division)')
+                    return type(base)(base.total)
+                prod = Poly.const(1)
+                for d in shp:
+                    prod = prod * d
+                if not self._subst(prod - base.total, env).is_zero():
+                    self.problems.append((e, f'reshape of {base.total} elements to shape {tuple(shp)} ({prod} elements)'))
+                return type(base)(shp[-1], tuple(shp[:-1]))
         q = self.world.qualify(module_of(e), f) or ''
         if q.endswith('.ceil') and len(e.args) == 1 and isinstance(e.args[0], ast.BinOp) and isinstance(e.args[0].op, ast.Div):
             num, den = self.ev(e.args[0].left, env), self.ev(e.args[0].right, env)
@@ -318,7 +364,21 @@ class LenInterp:
                 return Q + Poly.const(1)
             if short == 'concatenate':
                 parts = args[0]
-                return Arr(sum((p.n for p in parts), Poly()))
+                axis = kw.get('axis', Poly())
+                if not isinstance(axis, Poly) or not axis.is_const():
+                    raise Incomplete(site(e), 'concatenate along a non-literal axis')
+                ax = int(axis.const_value())
+                rank = len(parts[0].dims)
+                if any(len(p.dims) != rank for p in parts):
+                    self.problems.append((e, f'concatenation of arrays of different ranks: {[p.dims for p in parts]}'))
+                    return parts[0]
+                ax = ax % rank
+                for k in range(rank):
+                    if k != ax and any(not (p.dims[k] - parts[0].dims[k]).is_zero() for p in parts):
+                        self.problems.append((e, f'concatenation along axis {ax} of arrays whose axis {k} differs: {[p.dims for p in parts]}'))
+                dims = list(parts[0].dims)
+                dims[ax] = sum((p.dims[ax] for p in parts), Poly())
+                return Arr(dims[-1], tuple(dims[:-1]))
             if short == 'pad':
                 w = args[1]
                 if isinstance(w, tuple) and len(w) == 2:
@@ -326,9 +386,16 @@ class LenInterp:
                 if isinstance(w, tuple) and len(w) == 1:
                     return Arr(args[0].n + w[0].scale(2))
             if short in ('fft.fft', 'fft.ifft'):
+                axis = kw.get('axis', Poly.const(-1))
+                if not (isinstance(axis, Poly) and axis.is_const() and int(axis.const_value()) in (-1, len(args[0].dims) - 1)):
+                    raise Incomplete(site(e), 'FFT along an axis other than the last')
                 if len(args) > 1 or 'n' in kw:
-                    return Cplx(args[1] if len(args) > 1 else kw['n'])
-                return Cplx(args[0].n)
+                    n_out = args[1] if len(args) > 1 else kw['n']
+                    if args[0].lead:
+                        # a batch of data blocks: n different from the block length pads or truncates every block silently
+                        self.need(e, f'FFT length {n_out} <= block length {args[0].n} (no silent zero padding of the blocks)', args[0].n - n_out)
+                    return Cplx(n_out, args[0].lead)
+                return Cplx(args[0].n, args[0].lead)
             if short in ('fft.rfft',):
                 raise Incomplete(site(e), 'rfft lengths (floor division by 2)')
             if short == 'convolve':
